@@ -522,6 +522,10 @@ func judgeC10(c *c10Case) (status, detail string) {
 	return "ok", ""
 }
 
+// vsig is the structural class used in violation signatures: graph shape and
+// composite variant (the per-interface declaration variants are in the case).
+func (c *c10Case) vsig() string { return c.Shape + "|" + c.Comp }
+
 func (c *c10Case) sig() string {
 	vs := make([]string, len(c.Variants))
 	for i, v := range c.Variants {
@@ -570,7 +574,7 @@ func runC10(env *mc.Env) {
 		c10Accepted.Add(1)
 		m := p.model()
 		if st != "ok" {
-			env.R.Violation(p.sig()+"|"+st, p, detail+"\n"+p.script())
+			env.R.Violation(p.vsig()+"|"+st, p, p.sig()+": "+detail+"\n"+p.script())
 			return
 		}
 		env.R.Class(fmt.Sprintf("success/%s/%s/%d-conditions", p.Comp, p.Kind, len(m.conds)), func() any { return p.sig() })
@@ -600,7 +604,7 @@ func runC10(env *mc.Env) {
 			st, detail := judgeC10(fc)
 			env.R.EvalN(2)
 			if st != "ok" {
-				env.R.Violation(fc.sig()+"|"+st, fc, detail+"\n"+fc.script())
+				env.R.Violation(fc.vsig()+"|"+st, fc, fc.sig()+": "+detail+"\n"+fc.script())
 				continue
 			}
 			origin := "g"
